@@ -52,7 +52,12 @@ def chk_three_way(case, note):
 @st.composite
 def s_closure(draw):
     n, v = draw(gen.frame_ints())
-    return {"msg": tohex(v, n, draw(gen.hexcase)), "tail": draw(gen.bits(24))}
+    msg = tohex(v, n, draw(gen.hexcase))
+    tail = draw(gen.bits(24))
+    if draw(gen.uint(0, 3)) == 0:  # a parity field whose hex text also occurs in the data part (string-level handling of the field)
+        k = draw(gen.uint(0, len(msg) - 12))
+        tail = int(msg[k:k + 6], 16)
+    return {"msg": msg, "tail": tail}
 
 
 def chk_closure(case, note):
@@ -62,7 +67,7 @@ def chk_closure(case, note):
     if not _ok(p) or not isinstance(p[1], (int, np.integer)):
         return "crc(%s, encode=True) -> %r" % (m, p)
     p = int(p[1])
-    m2 = m[:-6] + "%06X" % tail
+    m2 = m[:-6] + ("%06X" % tail if m == m.upper() else "%06x" % tail)
     p2 = call(pms.crc, m2, True)
     note.nt(int(m, 16) >> 24 != 0)
     if p2 != ("ok", p):
